@@ -16,7 +16,7 @@ from ..core.runner import Result
 from ..core import histworld as H
 from ..core.termio import INT, REAL, BOOL, mk_type
 
-ALL = ["F%d" % i for i in range(1, 14)]
+ALL = ["F%d" % i for i in range(1, 18)]
 
 
 class Injected(Exception):
@@ -48,6 +48,11 @@ def _ill_calls():
         {w.S["x"]: w.m.Int(1)}, w.env).get_value(w.F["F8"])
     C["cnf(F4)"] = lambda w: __import__("pysmt.rewritings", fromlist=["cnf"]).cnf(w.F["F4"], w.env)
     C["get_symbol(zz)"] = lambda w: w.m.get_symbol("zz")
+    C["BVULT(x,y)"] = lambda w: w.m.BVULT(w.S["x"], w.S["y"])
+    C["BVSLE(a,u)"] = lambda w: w.m.BVSLE(w.S["a"], w.S["u"])
+    C["Select(x,y)"] = lambda w: w.m.Select(w.S["x"], w.S["y"])
+    C["StrLength(x)"] = lambda w: w.m.StrLength(w.S["x"])
+    C["Store(A,a,x)"] = lambda w: w.m.Store(w.S["A"], w.S["a"], w.S["x"])
     return C
 
 
@@ -86,10 +91,36 @@ def failing_events(names, quick):
         toks = HR_TEXTS[t].split()
         for cut in range(1, len(toks)):
             evs.append(("parse_hr_cut", t, cut))
+    for n in ("F9", "F13"):
+        for k in range(1, 12):
+            evs.append(("dagprint_fail", n, k))
     return evs
 
 
 WALKERS = ("simplifier", "substituter", "fvo", "ao", "qfo", "typeso", "theoryo", "sizeo", "nnf", "prenex", "cnf")
+
+
+class _Sink(object):
+    """a text stream whose k-th write can be made to fail (a full disk, a closed pipe)"""
+
+    def __init__(self):
+        self.buf = []
+        self.fail_at = None
+        self.n = 0
+
+    def reset(self):
+        self.buf = []
+        self.fail_at = None
+        self.n = 0
+
+    def write(self, s):
+        self.n += 1
+        if self.fail_at is not None and self.n == self.fail_at:
+            raise IOError("injected write failure")
+        self.buf.append(s)
+
+    def text(self):
+        return "".join(self.buf)
 
 
 class World(H.World):
@@ -99,9 +130,19 @@ class World(H.World):
         from pysmt.parsing import HRParser
         self.smt_parser = SmtLibParser(self.env)
         self.hr_parser = HRParser(self.env)
+        from pysmt.smtlib.printers import SmtDagPrinter
+        self.sink = _Sink()
+        self.dag_printer = SmtDagPrinter(self.sink)
 
     def call(self, ev):
         k = ev[0]
+        if k == "ill_again":
+            return ILL[ev[1]](self)
+        if k == "dagprint":
+            # the long-lived DAG printer object prints into its (switchable) stream
+            self.sink.reset()
+            self.dag_printer.printer(self.F[ev[1]])
+            return self.sink.text()
         if k == "parse":     # probes use the long-lived parser objects
             return self.smt_parser.get_script(StringIO(H.PARSE_TEXTS[ev[1]])).get_last_formula(self.m)
         if k == "parse_hr":
@@ -161,6 +202,13 @@ class World(H.World):
                 self.smt_parser.get_script(StringIO(" ".join(toks))).get_last_formula(self.m)
             elif k == "parse_hr_cut":
                 self.hr_parser.parse(" ".join(HR_TEXTS[ev[1]].split()[:ev[2]]) + " &")
+            elif k == "dagprint_fail":
+                self.sink.reset()
+                self.sink.fail_at = ev[2]
+                try:
+                    self.dag_printer.printer(self.F[ev[1]])
+                finally:
+                    self.sink.fail_at = None
             elif k == "inject":
                 _, wname, fname, kth = ev
                 walker, thunk = self.walker_call(wname, self.F[fname])
@@ -242,6 +290,8 @@ def dirty_walkers(w):
 def probes_for(names):
     ps = H.probe_events(names)
     ps += [("parse_hr", t) for t in HR_TEXTS] + [("parse_smt_full", t) for t in SMT_TEXTS]
+    ps += [("ill_again", k) for k in ILL]
+    ps += [("dagprint", n) for n in ("F2", "F9", "F13")]
     return ps
 
 
